@@ -552,6 +552,8 @@ def isolation(ctx, match, mpaths):
             oka = True
     ctx.ob('C12.D5', afi.qualname, 'returns-registration-key', oka,
            'addMatch must return the key under which the rule was stored')
+    filed_when_complete(ctx, 'C12.D5')
+    cancel_is_synchronous(ctx)
     # the daemon-side user of the same router: RemoveMatch over all
     # add/remove histories (shared with C14.D5)
     bus = prog.cls('bus.Bus')
@@ -559,6 +561,70 @@ def isolation(ctx, match, mpaths):
     if rmf is not None:
         from .c14 import removematch_accounting
         removematch_accounting(ctx, rmf, 'C12.D5')
+
+
+def filed_when_complete(ctx, rule_id):
+    """A rule is entered into the table routeMessage iterates only once all
+    its constraints are in place: adding a constraint can raise (an unknown
+    message type is a KeyError), the caller is then told the rule was
+    refused - and a rule filed before that point stays behind, without the
+    constraints that were not reached: it matches everything, and nobody
+    holds its id to remove it."""
+    prog = ctx.prog
+    afi = prog.func(MR + '.addMatch')
+    table = ('attr', ('param', 'self'), '_rules')
+    n = worst = 0
+    for p in Interp(prog, exc_edges=False).run(afi):
+        evs = list(iter_events(p.trace))
+        stores = [i for i, e in enumerate(evs)
+                  if e[0] == 'setsub' and e[1] == table]
+        if not stores:
+            continue
+        n += 1
+        later = [e for e in evs[stores[0] + 1:]
+                 if (e[0] == 'call' and kind(e[1][2]) in ('attr', 'bound')
+                     and str(e[1][2][2]).split('.')[-1] == 'add')]
+        worst = max(worst, len(later))
+    if n == 0:
+        raise AnalysisError('addMatch never stores into the rule table')
+    ctx.ob(rule_id, afi.qualname, 'filed-when-complete', worst == 0,
+           'the rule is stored in the routing table before up to %d of its '
+           'constraints are added: if adding one raises (unknown message '
+           'type), a rule without them - matching everything - stays '
+           'registered although the caller was told it failed' % worst)
+
+
+def cancel_is_synchronous(ctx):
+    """cancelSignalNotification is guarded by "is this id still mine": the
+    id must leave the proxy's set in the same call that asks the daemon to
+    remove the rule.  If it is removed only when the daemon's answer arrives,
+    a second cancel in between sends a second RemoveMatch - which removes a
+    rule of the same text that another callback still relies on."""
+    prog = ctx.prog
+    fi = prog.func('objects.RemoteDBusObject.cancelSignalNotification')
+    n = 0
+    for p in Interp(prog, exc_edges=False, inline=lambda q, d: False).run(fi):
+        dels = [i for i, e in enumerate(p.trace) if e[0] == 'call' and
+                kind(e[1][2]) == 'attr' and e[1][2][2] == 'delMatch']
+        if not dels:
+            continue
+        n += 1
+        removed = any(
+            (e[0] == 'mutate' and e[2] in ('remove', 'discard', 'pop') and
+             contains(e[1] if len(e) > 1 else (), lambda x: kind(x) == 'attr'
+                      and x[2] == '_signalRules')) or
+            (e[0] == 'call' and kind(e[1][2]) == 'attr' and
+             e[1][2][2] in ('remove', 'discard', 'pop') and
+             kind(e[1][2][1]) == 'attr' and
+             e[1][2][1][2] == '_signalRules')
+            for e in p.trace)
+        ctx.ob('C12.D5', fi.qualname, 'cancel-forgets-at-once', removed,
+               'cancelSignalNotification asks the daemon to remove the rule '
+               'but keeps the id in _signalRules on this path (it is removed '
+               'later, if at all): a repeated cancel sends RemoveMatch again '
+               'and takes away a rule another subscription still uses')
+    if n == 0:
+        raise AnalysisError('cancelSignalNotification never calls delMatch')
 
 
 def rule_text(ctx):
